@@ -20,10 +20,10 @@ Local Open Scope N_scope.
 (* ---------- inputs / outputs, common to all services ---------- *)
 
 (* Tok t a pick : request token [t] with argument [a] (vocabulary: harness/cmd/c03).
-   [pick] resolves the one scheduling choice the runtime makes inside a step: WHICH of
-   several goroutines blocked on the same channel / the same reader gets the item
-   (ftp, smtp: which event pump; ldap: which handler goroutine).  It is ignored where
-   the code leaves no choice. *)
+   [pick] used to resolve which of several goroutines blocked on one shared channel
+   receives an item (ftp / smtp event pumps before /repo 9efeaf2, ed36195); the code leaves
+   no such choice any more and every model ignores it.  The harness still reports the
+   connection whose address the step's event carried there, for the replay files. *)
 Inductive input := Open | Tok (t a pick : N) | Close.
 
 Definition reply := N.                       (* canonical reply code; 0 = server closed the connection *)
@@ -77,9 +77,6 @@ Section Local.
     (mkSys (shared st) (upd (conns st) i c), (map (pair i) rs, map (pair i) es)).
 End Local.
 Arguments lift {C}.
-
-Definition erase_events {S C} (step : sys S C -> N -> input -> sys S C * outs) :=
-  fun st i x => let '(st', o) := step st i x in (st', (fst o, @nil (N * ev))).
 
 (* ---------- small helpers ---------- *)
 Fixpoint memN (x : N) (l : list N) : bool :=
@@ -210,8 +207,9 @@ Definition tftp_step (st : sys tftp_shared unit) (i : N) (x : input) : sys tftp_
   end.
 
 (* ===================================================================================== *)
-(* ftp (services/ftp): shared = the recv channel with its event pumps (one per connection *)
-(* ever accepted, never exits) and the single Htfs working directory                      *)
+(* ftp (services/ftp): Handle makes, per connection, the command channel with its event   *)
+(* pump AND the driver (a copy of the Htfs: root, working directory); login state lives   *)
+(* on the per-connection Conn object.  Nothing a command touches is shared.               *)
 (* ===================================================================================== *)
 (* directory tree used by the harness: /, /a, /b, /a/c ; component codes a=1 b=2 c=3,
    0 = "..", 9 = a name that does not exist *)
@@ -246,8 +244,6 @@ Definition change_dir (cwd : path) (a : N) : option path :=
   match dir_index target with Some _ => Some target | None => None end.
 Definition dir_code (p : path) : N := match dir_index p with Some k => k | None => 99 end.
 
-Record ftp_shared := mkFtp { f_pumps : list N; f_cwd : path }.
-Definition ftp_s0 := mkFtp [] [].
 (* per connection: phase, logged in, reqUser (0 none, 1 anonymous, 2 other) *)
 Record ftp_conn := mkFC { fc_ph : N; fc_user : bool; fc_req : N }.
 Definition ftp_c0 := mkFC PH_NONE false 0.
@@ -255,54 +251,46 @@ Definition ftp_c0 := mkFC PH_NONE false 0.
 (* tokens: 1 USER a (1 anonymous, 2 bob), 2 PASS a (1 anonymous, 2 wrong), 3 PWD, 4 CWD a,
    5 CDUP, 6 NOOP, 7 SYST, 8 QUIT, 9 unknown verb, 10 CWD without parameter
    replies: 1000*code + detail (PWD / CWD success: index of the directory named in the reply)
-   events: (1, 16*t + a) one per command line, carried by the pump that received it        *)
-Definition ftp_cmd (s : ftp_shared) (c : ftp_conn) (t a : N) : ftp_shared * ftp_conn * list reply :=
-  let deny := (s, c, [530000]) in
-  if t =? 1 then (s, mkFC (fc_ph c) (fc_user c) a, [331000])
+   events: (1, 16*t + a) one per command line, sent by the connection's own pump          *)
+Definition ftp_cmd (cwd : path) (c : ftp_conn) (t a : N) : path * ftp_conn * list reply :=
+  let deny := (cwd, c, [530000]) in
+  if t =? 1 then (cwd, mkFC (fc_ph c) (fc_user c) a, [331000])
   else if t =? 2 then
-    if (fc_req c =? 1) && (a =? 1) then (s, mkFC (fc_ph c) true 0, [230000]) else (s, c, [530000])
+    if (fc_req c =? 1) && (a =? 1) then (cwd, mkFC (fc_ph c) true 0, [230000]) else (cwd, c, [530000])
   else if t =? 3 then
-    if fc_user c then (s, c, [257000 + dir_code (f_cwd s)]) else deny
+    if fc_user c then (cwd, c, [257000 + dir_code cwd]) else deny
   else if (t =? 4) || (t =? 5) then
     if negb (fc_user c) then deny
-    else match change_dir (f_cwd s) (if t =? 5 then 4 else a) with
-         | Some p => (mkFtp (f_pumps s) p, c, [250000 + dir_code p])
-         | None => (s, c, [550000])
+    else match change_dir cwd (if t =? 5 then 4 else a) with
+         | Some p => (p, c, [250000 + dir_code p])
+         | None => (cwd, c, [550000])
          end
-  else if t =? 6 then (s, c, [200000])
-  else if t =? 7 then if fc_user c then (s, c, [215000]) else deny
-  else if t =? 8 then (s, mkFC PH_DONE (fc_user c) (fc_req c), [221000; CLOSED])
-  else if t =? 10 then (s, c, [553000])
-  else (s, c, [500000]).
+  else if t =? 6 then (cwd, c, [200000])
+  else if t =? 7 then if fc_user c then (cwd, c, [215000]) else deny
+  else if t =? 8 then (cwd, mkFC PH_DONE (fc_user c) (fc_req c), [221000; CLOSED])
+  else if t =? 10 then (cwd, c, [553000])
+  else (cwd, c, [500000]).
 
-Definition ftp_step (st : sys ftp_shared ftp_conn) (i : N) (x : input) : sys ftp_shared ftp_conn * outs :=
-  let s := shared st in
-  let c := conns st i in
+Definition ftp_lstep (c : ftp_conn * path) (x : input) : (ftp_conn * path) * list reply * list ev :=
+  let '(fc, cwd) := c in
   match x with
-  | Open =>
-      if fc_ph c =? PH_NONE then
-        (mkSys (mkFtp (f_pumps s ++ [i]) (f_cwd s)) (upd (conns st) i (mkFC PH_LIVE false 0)), ([(i, 220000)], []))
-      else (st, no_outs)
-  | Close =>
-      if fc_ph c =? PH_LIVE then (mkSys s (upd (conns st) i (mkFC PH_DONE (fc_user c) (fc_req c))), no_outs)
-      else (st, no_outs)
-  | Tok t a pick =>
-      if negb (fc_ph c =? PH_LIVE) then (st, no_outs)
-      else
-        let '(s', c', rs) := ftp_cmd s c t a in
-        (* conn.rcv <- line : received by one of the pumps ranging over the shared channel *)
-        let carrier := if memN pick (f_pumps s) then pick else 0 in
-        (mkSys s' (upd (conns st) i c'), (map (pair i) rs, [(carrier, mkEv 1 (16 * t + a))]))
+  | Open => if fc_ph fc =? PH_NONE then ((mkFC PH_LIVE false 0, []), [220000], []) else (c, [], [])
+  | Close => if fc_ph fc =? PH_LIVE then ((mkFC PH_DONE (fc_user fc) (fc_req fc), cwd), [], []) else (c, [], [])
+  | Tok t a _ =>
+      if negb (fc_ph fc =? PH_LIVE) then (c, [], [])
+      else let '(cwd', fc', rs) := ftp_cmd cwd fc t a in
+           ((fc', cwd'), rs, [mkEv 1 (16 * t + a)])
   end.
 
 (* ===================================================================================== *)
-(* smtp (services/smtp): receiveChan shared by the pumps of all connections ever accepted *)
-(* (a pump never exits); the command-line channel rcvLine is per connection                *)
+(* smtp (services/smtp): Handle makes, per connection, the command-line channel, the      *)
+(* receive channel (handler bound to the connection: the package-level mux is no longer   *)
+(* consulted) and the pump that ends with the connection.                                 *)
 (* ===================================================================================== *)
 (* conn state: 0 none, 1 helloState, 2 loopState, 3 mailFromState, 4 reading DATA, 5 done
    tokens: 1 HELO, 2 MAIL FROM, 3 RCPT TO, 4 DATA, 5 message a + "." (only generated in
    state 4), 6 NOOP, 7 RSET, 8 QUIT, 9 unknown verb
-   replies: 1000*code; events: (1, token) input line - own pump; (2, a) email - any pump     *)
+   replies: 1000*code; events: (1, token) input line, (2, a) email - both by the own pump  *)
 Definition smtp_line (stt t : N) : N * list reply :=
   if stt =? 1 then
     if t =? 1 then (2, [250000]) else (5, [500000; CLOSED])
@@ -317,77 +305,25 @@ Definition smtp_line (stt t : N) : N * list reply :=
     else if t =? 4 then (4, [354000])
     else (2, [500000]).
 
-Definition smtp_step (st : sys (list N) N) (i : N) (x : input) : sys (list N) N * outs :=
-  let pumps := shared st in
-  let stt := conns st i in
+Definition smtp_lstep (stt : N) (x : input) : N * list reply * list ev :=
   match x with
-  | Open =>
-      if stt =? 0 then (mkSys (pumps ++ [i]) (upd (conns st) i 1), ([(i, 220000)], []))
-      else (st, no_outs)
-  | Close =>
-      if (1 <=? stt) && (stt <=? 4) then (mkSys pumps (upd (conns st) i 5), no_outs) else (st, no_outs)
-  | Tok t a pick =>
-      if (stt =? 0) || (stt =? 5) then (st, no_outs)
-      else if stt =? 4 then
-        if t =? 5 then
-          let carrier := if memN pick pumps then pick else 0 in
-          (mkSys pumps (upd (conns st) i 2), ([(i, 250000)], [(carrier, mkEv 2 a)]))
-        else (st, no_outs)                       (* not generated: a command line inside DATA *)
-      else if t =? 5 then (st, no_outs)          (* not generated: message text outside DATA *)
-      else
-        let '(stt', rs) := smtp_line stt t in
-        (mkSys pumps (upd (conns st) i stt'), (map (pair i) rs, [(i, mkEv 1 t)]))
+  | Open => if stt =? 0 then (1, [220000], []) else (stt, [], [])
+  | Close => if (1 <=? stt) && (stt <=? 4) then (5, [], []) else (stt, [], [])
+  | Tok t a _ =>
+      if (stt =? 0) || (stt =? 5) then (stt, [], [])
+      else if stt =? 4 then (if t =? 5 then (2, [250000], [mkEv 2 a]) else (stt, [], []))
+                                                 (* not generated: a command line inside DATA *)
+      else if t =? 5 then (stt, [], [])          (* not generated: message text outside DATA *)
+      else let '(stt', rs) := smtp_line stt t in (stt', rs, [mkEv 1 t])
   end.
 
 (* ===================================================================================== *)
-(* ldap (services/ldap): *Conn (socket + reader), login, wantTLS live on the service       *)
+(* ldap (services/ldap): Handle builds a session object per connection (socket, reader,   *)
+(* TLS and bind state, handlers bound to it) from the service's configuration.            *)
 (* ===================================================================================== *)
-(* shared: the connections accepted so far, the connection s.Conn points to, whether
-   s.login is non-empty, and which connections are closed (by either side).
-   per Handle goroutine g: whether it still runs and the connection it will read its next
-   request from (the loop re-evaluates s.ConnReader on every iteration).                   *)
-Record ldap_shared := mkLd { l_opened : list N; l_cur : N; l_login : bool; l_closed : list N }.
-Definition ldap_s0 := mkLd [] 0 false [].
-Record ldap_g := mkLG { g_alive : bool; g_rd : N }.
-Definition ldap_g0 := mkLG false 0.
-
-Definition ldap_sys := sys ldap_shared ldap_g.
-
-(* goroutines whose next read is from a closed connection fail and return; the server then
-   closes their own connection, which may fail further readers: iterate |opened| times *)
-Definition settle_round (st : ldap_sys) (acc : list (N * reply)) : ldap_sys * list (N * reply) :=
-  fold_left (fun (p : ldap_sys * list (N * reply)) g =>
-    let '(st, acc) := p in
-    let c := conns st g in
-    if g_alive c && memN (g_rd c) (l_closed (shared st)) then
-      let s := shared st in
-      let was := memN g (l_closed s) in
-      (mkSys (mkLd (l_opened s) (l_cur s) (l_login s) (if was then l_closed s else g :: l_closed s))
-             (upd (conns st) g (mkLG false 0)),
-       if was then acc else acc ++ [(g, CLOSED)])
-    else (st, acc)) (l_opened (shared st)) (st, acc).
-
-Fixpoint settle (fuel : nat) (st : ldap_sys) (acc : list (N * reply)) : ldap_sys * list (N * reply) :=
-  match fuel with
-  | O => (st, acc)
-  | Datatypes.S f => let '(st', acc') := settle_round st acc in settle f st' acc'
-  end.
-Definition settle_all (st : ldap_sys) (acc : list (N * reply)) :=
-  settle (length (l_opened (shared st))) st acc.
-
-(* goroutine g returns from Handle: the server closes g's own connection *)
-Definition ldap_return (st : ldap_sys) (g : N) (acc : list (N * reply)) : ldap_sys * list (N * reply) :=
-  let s := shared st in
-  let was := memN g (l_closed s) in
-  settle_all (mkSys (mkLd (l_opened s) (l_cur s) (l_login s) (if was then l_closed s else g :: l_closed s))
-                    (upd (conns st) g (mkLG false 0)))
-             (if was then acc else acc ++ [(g, CLOSED)]).
-
-Definition ldap_readers (st : ldap_sys) (i : N) : list N :=
-  filter (fun g => g_alive (conns st g) && (g_rd (conns st g) =? i)) (l_opened (shared st)).
-
-(* tokens (a = message id): 1 bind cn=root/root, 2 bind cn=root/wrong, 3 anonymous bind,
-   4 delete request, 6 unbind, 7 abandon
+(* per connection: (phase, bound?)
+   tokens (a = message id): 1 bind cn=root/root, 2 bind cn=root/wrong, 3 anonymous bind,
+   4 delete request (allowed only when bound), 6 unbind, 7 abandon
    replies: a*1000000 + 1000*response tag + result code;
    events: (request type: 1 bind, 4 delete, 6 unbind, 7 abandon ; a)                       *)
 Definition ldap_evtype (t : N) : N := if t <=? 3 then 1 else t.
@@ -398,47 +334,20 @@ Definition ldap_reply (t a : N) (login : bool) : option reply :=
   else if t =? 4 then Some (a * 1000000 + 11000 + (if login then 0 else 53))
   else None.
 
-Definition ldap_step (st : ldap_sys) (i : N) (x : input) : ldap_sys * outs :=
-  let s := shared st in
+Definition ldap_lstep (c : N * bool) (x : input) : (N * bool) * list reply * list ev :=
+  let '(ph, login) := c in
   match x with
-  | Open =>
-      if memN i (l_opened s) then (st, no_outs)
-      else (mkSys (mkLd (l_opened s ++ [i]) i false (l_closed s)) (upd (conns st) i (mkLG true i)), no_outs)
-  | Close =>
-      if memN i (l_closed s) || negb (memN i (l_opened s)) then (st, no_outs)
+  | Open => if ph =? PH_NONE then ((PH_LIVE, false), [], []) else (c, [], [])
+  | Close => if ph =? PH_LIVE then ((PH_DONE, login), [], []) else (c, [], [])
+  | Tok t a _ =>
+      if negb (ph =? PH_LIVE) then (c, [], [])
+      else if t =? 6 then ((PH_DONE, login), [CLOSED], [mkEv 6 a])
       else
-        let '(st', rs) := settle_all (mkSys (mkLd (l_opened s) (l_cur s) (l_login s) (i :: l_closed s)) (conns st)) [] in
-        (st', (rs, []))
-  | Tok t a pick =>
-      if memN i (l_closed s) then (st, no_outs)
-      else
-        let rd := ldap_readers st i in
-        let g := match rd with
-                 | [] => 0
-                 | [g1] => g1
-                 | g1 :: _ => if memN pick rd then pick else 0
-                 end in
-        if g =? 0 then (st, no_outs)               (* nobody reads this connection any more *)
-        else if t =? 6 then
-          let '(st', rs) := ldap_return st g [] in (st', (rs, [(g, mkEv 6 a)]))
-        else
-          let login' := if t =? 1 then true else if t =? 3 then false else l_login s in
-          let s1 := mkLd (l_opened s) (l_cur s) login' (l_closed s) in
-          match ldap_reply t a login' with
-          | Some r =>
-              if memN (l_cur s) (l_closed s) then
-                (* write on a closed connection fails: Handle returns before the event *)
-                let '(st', rs) := ldap_return (mkSys s1 (conns st)) g [] in (st', (rs, []))
-              else
-                let '(st', rs) := settle_all (mkSys s1 (upd (conns st) g (mkLG true (l_cur s)))) [(l_cur s, r)] in
-                (st', (rs, [(g, mkEv (ldap_evtype t) a)]))
-          | None =>
-              let '(st', rs) := settle_all (mkSys s1 (upd (conns st) g (mkLG true (l_cur s)))) [] in
-              (st', (rs, [(g, mkEv (ldap_evtype t) a)]))
-          end
+        let login' := if t =? 1 then true else if t =? 3 then false else login in
+        ((ph, login'), match ldap_reply t a login' with Some r => [r] | None => [] end, [mkEv (ldap_evtype t) a])
   end.
 
-(* ---------- the eight machines behind one interface ---------- *)
+(* ---------- the machines behind one interface ---------- *)
 Definition SVC_LDAP := 1.
 Definition SVC_FTP := 2.
 Definition SVC_SMTP := 3.
@@ -447,18 +356,21 @@ Definition SVC_TELNET := 5.
 Definition SVC_REDIS := 6.
 Definition SVC_MEMCACHED := 7.
 Definition SVC_HTTP := 8.
+Definition SVC_SMTP2 := 9.     (* two smtp services in one process: even connection ids go to
+                                  the second one; the instances share nothing *)
 
 Definition run_outs {S C} (step : sys S C -> N -> input -> sys S C * outs) (s0 : S) (c0 : C)
            (tr : list (N * input)) : list outs :=
   snd (run step (mkSys s0 (fun _ => c0)) tr).
 
 Definition svc_run (svc : N) (tr : list (N * input)) : list outs :=
-  if svc =? SVC_LDAP then run_outs ldap_step ldap_s0 ldap_g0 tr
-  else if svc =? SVC_FTP then run_outs ftp_step ftp_s0 ftp_c0 tr
-  else if svc =? SVC_SMTP then run_outs smtp_step [] 0 tr
+  if svc =? SVC_LDAP then run_outs (lift ldap_lstep) tt (PH_NONE, false) tr
+  else if svc =? SVC_FTP then run_outs (lift ftp_lstep) tt (ftp_c0, []) tr
+  else if svc =? SVC_SMTP then run_outs (lift smtp_lstep) tt 0 tr
   else if svc =? SVC_TFTP then run_outs tftp_step tftp_s0 tt tr
   else if svc =? SVC_TELNET then run_outs (lift telnet_lstep) tt (PH_NONE, 0, 0) tr
   else if svc =? SVC_REDIS then run_outs (lift redis_lstep) tt PH_NONE tr
   else if svc =? SVC_MEMCACHED then run_outs (lift memcached_lstep) tt PH_NONE tr
   else if svc =? SVC_HTTP then run_outs (lift http_lstep) tt PH_NONE tr
+  else if svc =? SVC_SMTP2 then run_outs (lift smtp_lstep) tt 0 tr
   else [].
